@@ -368,6 +368,10 @@ def dfdt(dae: nDAE, t, y, dt=1.0):
     # near t = 0 the increment is taken relative to the step: sqrt(eps) * 1e-8 is below the resolution of F
     tscale = np.maximum(0.1 * np.abs(t), np.abs(dt))
     ddt = t + np.sqrt(np.spacing(1)) * tscale - t
+    # second-order one-sided difference (no evaluation before t): the increment has to grow with |t|, and the truncation
+    # error of the two-point forward difference, 0.5 * ddt * F_tt ~ 1e-9 * |t| * F_tt, reduced the order to one at late times
     f0 = dae.F(t, y, dae.p)
     f1 = dae.F(t + ddt, y, dae.p)
-    return (f1 - f0) / ddt
+    f2 = dae.F(t + 2 * ddt, y, dae.p)
+    # written with differences so that an autonomous F gives exactly zero
+    return (4 * (f1 - f0) - (f2 - f0)) / (2 * ddt)
